@@ -23,6 +23,7 @@ import (
 	kmsepb "github.com/tink-crypto/tink-go/v2/proto/kms_envelope_go_proto"
 	tinkpb "github.com/tink-crypto/tink-go/v2/proto/tink_go_proto"
 	"github.com/tink-crypto/tink-go/v2/signature"
+	"github.com/tink-crypto/tink-go/v2/signature/mldsa"
 	"github.com/tink-crypto/tink-go/v2/verifharness/internal/detrand"
 	"github.com/tink-crypto/tink-go/v2/verifharness/internal/evid"
 	"github.com/tink-crypto/tink-go/v2/verifharness/internal/gen"
@@ -161,6 +162,9 @@ func templates() []tmpl {
 		{"HMAC/LEGACY", withPrefix(mac.HMACSHA256Tag128KeyTemplate(), tinkpb.OutputPrefixType_LEGACY), true, false},
 		{"ED25519/TINK", signature.ED25519KeyTemplate(), true, false},
 		{"ED25519/RAW", signature.ED25519KeyWithoutPrefixTemplate(), true, true},
+		// the fifth prefix type: no output prefix, but the key is bound to its ID (added after seeded change
+		// C11m / C12m: Manager.Add listed the prefix types that carry the ID and forgot this one)
+		{"MLDSA65/WITH_ID_REQUIREMENT", tk.Must(protoserialization.SerializeParameters(tk.Must(mldsa.NewParameters(mldsa.MLDSA65, mldsa.VariantNoPrefixWithPrehashID)))), true, false},
 		{"nil", nil, false, false},
 		{"UNKNOWN_PREFIX", withPrefix(aead.AES128GCMKeyTemplate(), tinkpb.OutputPrefixType_UNKNOWN_PREFIX), false, false},
 		{"unregistered-url", &tinkpb.KeyTemplate{TypeUrl: "type.googleapis.com/verif.DoesNotExist", OutputPrefixType: tinkpb.OutputPrefixType_TINK}, false, false},
